@@ -301,7 +301,7 @@ def run(ctx):
                 emu["fluents"] = model.emulate_fluent_store(init_items)
                 emu["numeric_goals"] = sorted(repr(model.canon_expr(collapse_terms(g, w))) for g in goal[1:] if g[0] in model.CMP)
                 trig = any(model.has_repeat(k) for k in fluents) or any(term_has_repeat(g, w) for g in goal[1:] if g[0] in model.CMP)
-                if trig and not diff_problem(emu, obs) and not obs["dup"]:
+                if trig and not diff_problem(emu, obs):
                     ctx.known_finding("KF-REPEATED-ARGS", dict(wit, differences=d[:3]))
                 else:
                     ctx.violation("parsed-problem-differs:" + classify(d, exp), dict(wit, differences=d[:5]))
